@@ -433,6 +433,8 @@ impl Skiplist {
 	/// Random height
 	fn random_height(&self) -> u32 {
 		let rnd: u32 = rand::rng().random();
+		#[cfg(surrealkv_verif)]
+		let rnd = crate::verif::height_rnd().unwrap_or(rnd);
 		let mut h = 1u32;
 		let probs = probabilities();
 		while h < MAX_HEIGHT as u32 && rnd <= probs[h as usize] {
